@@ -73,6 +73,12 @@ Theorem C08_chain_model_ok : forall chain cs, chain_dom chain cs = true ->
 Proof. exact run_model_ok. Qed.
 Print Assumptions C08_chain_model_ok.
 
+(* the property oracle holds of the model: closed form at the coarsest resolution after one pass, nothing changes in a second *)
+Theorem C08_chain_model_meets_oracle : forall chain cs, chain_dom chain cs = true ->
+  ok_chain chain cs (run_model chain cs) (do o1 <- run_model chain cs; Ok (run chain o1)) = true.
+Proof. exact run_model_meets_oracle. Qed.
+Print Assumptions C08_chain_model_meets_oracle.
+
 (* ---- the domain restriction is necessary: cues shorter than the resolution (known findings) ---- *)
 Theorem C08_short_cues_srt_merge_refuted :
   exists chain cs, sorted_from 1 0 82800000000 cs = true /\ run_model chain cs <> Ok (expected chain cs).
